@@ -348,6 +348,12 @@ func checkC06(c LimitCase, o *Obs) error {
 			got = append(got, buf[:k]...)
 			if e != nil {
 				rerr = e
+				// the reader has failed: further Reads of it deliver nothing
+				for j := 0; j < 3; j++ {
+					if k2, e2 := r.Read(buf[:]); k2 != 0 || e2 == nil || e2 == io.EOF {
+						return fmt.Errorf("limit %d: the reader of the over-limit message failed with %v; read again it returned %d bytes and error %v - the refused payload is handed out after all", L, e, k2, e2)
+					}
+				}
 				break
 			}
 			if len(got) > len(overDelivered)+int(L)+8192 {
